@@ -30,6 +30,8 @@ func c14Directed(rng *RNG) []Case {
 		{"docker-child", "opaque", "m1", "i-foreign"},
 		{"m1", "m4-layers-subject"},
 		{"m1", "art-carrying-m1", "i-shared-bytes"},
+		{"artifact-empty-config"},
+		{"artifact-empty-config-only", "artifact-empty-config"},
 	}
 	for _, chain := range chains {
 		for tagged := range chain {
